@@ -26,6 +26,10 @@ type c15Plan struct {
 	// mode storm: Frame and Storm are each encoded (and decoded, re-encoded) Reps times by their own goroutine at once
 	Storm []*common.RFrame `json:"storm,omitempty"`
 	Reps  int              `json:"reps,omitempty"`
+	// description responses: further kept blocks put into the value by hand - a type octet each, no data (what an
+	// application that builds its answer block by block may hold; the decoder never yields such a block), placed
+	// before (even index) or behind (odd index) the blocks the frame description brings
+	EmptyBlocks []int `json:"empty_blocks,omitempty"`
 }
 
 type namedPackable struct {
@@ -119,6 +123,24 @@ func c15Run(p c15Plan) *common.Fail {
 		srv := common.ToLib(p.Frame)
 		if srv == nil {
 			srv = &knxnet.UnknownService{Data: append([]byte{}, p.Frame.Raw...)}
+		}
+		if dr, ok := srv.(*knxnet.DescriptionRes); ok {
+			for i, ty := range p.EmptyBlocks {
+				blk := knxnet.UnknownDescriptionBlock{Type: knxnet.DescriptionType(ty)}
+				if i%4 >= 2 {
+					blk.Data = []byte{}
+				}
+				if i%2 == 0 {
+					dr.UnknownBlocks = append([]knxnet.UnknownDescriptionBlock{blk}, dr.UnknownBlocks...)
+				} else {
+					dr.UnknownBlocks = append(dr.UnknownBlocks, blk)
+				}
+			}
+			for i := range dr.UnknownBlocks {
+				if _, f := packGuarded("UnknownDescriptionBlock", &dr.UnknownBlocks[i], fill); f != nil {
+					return f
+				}
+			}
 		}
 		for _, np := range subPackables(p.Frame, srv) {
 			if _, f := packGuarded(np.name, np.p, fill); f != nil {
@@ -275,6 +297,12 @@ func TestC15(t *testing.T) {
 					fam.Families = append(fam.Families, [2]uint8{uint8(len(fam.Families)*7 + 2), uint8(len(fam.Families) + 1)})
 				}
 				rec.Class("families-beyond-length-octet")
+			}
+			if p.Kind == "descrres" && rapid.IntRange(0, 2).Draw(rt, "empty-blocks") == 0 {
+				for i := 0; i < rapid.IntRange(1, 4).Draw(rt, "n-empty-blocks"); i++ {
+					p.EmptyBlocks = append(p.EmptyBlocks, int(rapid.SampledFrom([]uint8{3, 4, 5, 0xfe, 6, 0, 0xff}).Draw(rt, "empty-block-type")))
+				}
+				rec.Class("description-response-with-data-less-blocks")
 			}
 			// an application unit without payload (the shape of a group read) is encodable too: the
 			// encoder must then write the one mandatory octet itself instead of leaving what was there
